@@ -98,3 +98,16 @@ def c03(ctx, t0):
         res.append(ctx.run_child('snapshot', [hx, 'c03'], T(ctx, 300, 1200)))
     floors = {'planted_auth_probes': (counters(res, 'planted_auth_probes'), 10), 'control_names': (counters(res, 'control_names'), 5)}
     return finish(ctx, 'exploration', res, COMMON_ASSUME + ['the monitor applies the grammar ^[A-Za-z0-9][-_.@A-Za-z0-9]*$ itself (go/ref NameValid)'], floors, t0)
+
+
+@plan('C18')
+def c18(ctx, t0):
+    hx = ctx.build_hx()
+    res = []
+    if want(ctx, 'loader'):
+        res.append(ctx.run_child('loader', [hx, 'c18'], T(ctx, 400, 3000)))
+    floors = {'expect:reject': (counters(res, 'expect:reject'), 100), 'expect:accept': (counters(res, 'expect:accept'), 10),
+              'accepted_sets_exercised': (counters(res, 'accepted_sets_exercised'), 30)}
+    return finish(ctx, 'exploration', res, COMMON_ASSUME + [
+        'parameter values whose memory demand exceeds 256 MiB or whose run time is unbounded (scrypt cost 20..31, argon2id time/length near 2^32) are not generated: their outcome depends on the host',
+        'duplicate parameter-set ids are not mentioned by the property and are left unasserted'], floors, t0)
